@@ -26,6 +26,7 @@ def main():
     t0 = time.time()
     try:
         core.ensure_built()
+        core.assert_repo()
         mod = importlib.import_module("harness.props." + prop.lower())
         if args.replay:
             payload = json.load(open(args.replay, encoding="utf8"))
